@@ -576,7 +576,7 @@ func checkCmd(opts *RunOpts, args []string) int {
 	}
 	if run.SRan {
 		_, vl, cv := boundedListVerdict(opts, prop, known, "bounded.handlers.sequence", "none.txt", run.SFailing, run.STotal,
-			"states A, B and the Multi state M with a handler bound for every handler name; every history of up to 2 mutations over Add/Remove/Set of each state and Add{A,M}",
+			"states A, B and the Multi state M with a handler bound for every handler name; every history of up to 2 mutations over Add/Remove/Set of each state and Add{A,M}; two instances of one handler struct type bound (each binding called in order with its own receiver, a veto by either cancels)",
 			"", "run handlers out of the documented sequence (Exit, Enter, self, state-state, AnyEnter, End, State, AnyState; exactly the documented handlers per phase)", nil)
 		if vl != "" {
 			violations = append(violations, vl)
